@@ -8,6 +8,7 @@ The round-trip clause is proved for modification times not in the future at the 
 (`C14_roundtrip_full_false`): that is known finding K1.
 -/
 import HttpServeModel.Lemmas.CondLemmas
+import HttpServeModel.Lemmas.ServeCalls
 
 namespace HS
 
@@ -77,5 +78,12 @@ theorem C14_roundtrip_if_range (x : Tag) (hx : x.wf) (hs : x.weak = false) (e : 
 code: the served Last-Modified is clamped to Date, so the validator moves with the clock.
 Witness: mtime = 100 s, clock = 50 s, echoed If-Modified-Since: 50 → 200, not 304. -/
 theorem C14_roundtrip_full_false : ¬ roundtrip_full := roundtrip_full_false
+
+/-- An entity without a usable modification time (none, or one before the Unix epoch) is served
+without the clock having any influence: the whole response — status, every header, plan, entity
+calls — is the same whenever it is served (no Date is invented for it). -/
+theorem C14_no_mtime_no_clock (q : Req) (e : Ent) (now now' : Nat) (h : e.mtime = none) :
+    serve q e now = serve q e now' :=
+  no_mtime_no_clock q e now now' h
 
 end HS
